@@ -194,6 +194,13 @@ pub struct CG<'a> {
     pub caps: f64,
     pub wrappers: f64,
     pub shapes: bool,
+    /// C02: one callback inside a wrapper body counts its calls in a (Copy) local of the calling
+    /// function, `__cnt`, which becomes part of the compared result: wrapper closures must capture
+    /// the caller's variables the way the hand-written closure does
+    pub count_local: bool,
+    pub count_used: bool,
+    /// inside a wrapper whose closure must be `Fn` (sync `??`)
+    pub no_count: bool,
     pub allow_deferred: bool,
     pub spawn_async: bool,
     pub depth: usize,
@@ -313,9 +320,15 @@ impl<'a> CG<'a> {
             let inner = self.nested_invocation(a, "v", b, "operand");
             return format!("|v: {}| -> {} {{ {} }}", a.name(), b.name(), inner);
         }
+        if self.count_local && !self.count_used && !self.no_count && self.depth >= 1 && !matches!(a, Ty::Iter(_) | Ty::Ref(_)) && rb(self.rng, if self.depth >= 2 { 0.7 } else { 0.2 }) {
+            self.count_used = true;
+            let id = self.id();
+            return format!("|v: {}| -> {} {{ __cnt += 1; xcbf::<{}, {}>({}, v) }}", a.name(), b.name(), a.name(), b.name(), id);
+        }
         let id = self.id();
         let core = if self.shapes {
-            match self.rng.random_range(0..6) {
+            match self.rng.random_range(0..7) {
+                6 => format!("lcbf::<{}, {}>({})", a.name(), b.name(), id),
                 0 => format!("|v: {}| xcbf::<{}, {}>({}, v)", a.name(), a.name(), b.name(), id),
                 1 => format!("|v: {}| -> {} {{ xcbf::<{}, {}>({}, v) }}", a.name(), b.name(), a.name(), b.name(), id),
                 2 => format!("(cbf::<{}, {}>({}))", a.name(), b.name(), id),
@@ -724,8 +737,13 @@ impl<'a> CG<'a> {
             _ => return None,
         };
         self.depth += 1;
+        let saved_no_count = self.no_count;
+        if c == Comb::Inspect {
+            self.no_count = true;
+        }
         let len = self.rng.random_range(0..4usize);
         let (inner, body_ty) = self.walk(&param, len, goal.as_ref(), true);
+        self.no_count = saved_no_count;
         self.depth -= 1;
         let out_ty = out(&body_ty);
         let mut op = COp { comb: c, alt: false, deferred: false, operands: vec![], inner: Some(inner), closed: true, out: out_ty.clone() };
